@@ -23,12 +23,15 @@ def parse_calls(text):
     return [cf.parse_call(x) for x in text.split("||") if x.strip()]
 
 
+UFACTORY = [Universe]      # the identifier tables in force (a wake family may ask for related pids / formats)
+
+
 def sequential_outcomes(setup, calls, adjust_inprogress=()):
     """the implementation's own sequential behaviour: for every order of the calls -> (outcomes by thread, state).
     adjust_inprogress: indices of calls to be treated as rejected-without-effect (C07's one extra outcome)."""
     res = []
     for perm in itertools.permutations(range(len(calls))):
-        u = Universe()
+        u = UFACTORY[0]()
         seq.prepare(u, setup + calls)
         ps, fs = seq.ids_of(setup + calls)
         im = Impl(u, sorted(set(ps) | {1, 2, 3}), sorted(set(fs) | {0, 1, 2}))
@@ -240,6 +243,9 @@ WAKE12 = [
     ("sm 1 1 p 1 1 ; sm 1 2 p 1 1", "dm 1 1 || dm 1 1 || sm 1 2 p 2 1"),          # two deleters of one document, a third call releases another
     ("sm 1 1 p 1 1", "sm 1 1 p 2 1 || dm 1 1 || sm 1 2 p 1 1"),
     ("", "sm 1 1 p 1 1 || sm 1 1 p 2 1 || dm 1 1"),                                 # three contenders for one document
+    # two DIFFERENT documents whose lock names coincide: (pid "ab", format "c") and (pid "a", format "bc")
+    ("sm 1 1 p 1 1", "sm 2 2 p 2 1 || dm 1 -", {"pids": {1: "ab", 2: "a"}, "fmts": {1: "c", 2: "bc"}}),
+    ("sm 1 1 p 1 1 ; sm 2 2 p 1 1", "sm 2 2 p 2 1 || dm 1 1", {"pids": {1: "ab", 2: "a"}, "fmts": {1: "c", 2: "bc"}}),
 ]
 
 
@@ -247,7 +253,9 @@ def wake_families(run, families, n, reader_relaxed=False, mode="th", oracle="lin
     """implementation-side search on 3-thread pools built to exercise wait()/notify(): random schedules with long runs of one
     thread, judged against the implementation's own sequential runs of every order"""
     rng = random.Random(run.seed + 7)
-    for setup_t, calls_t in families:
+    for fam in families:
+        setup_t, calls_t = fam[0], fam[1]
+        UFACTORY[0] = (lambda kw=fam[2]: Universe(pids=dict(kw["pids"]), fmts=dict(kw["fmts"]))) if len(fam) > 2 else Universe
         setup, calls = cf.parse_history(setup_t), parse_calls(calls_t)
         cache = {}
         # first a systematic walk over the orders of the synchronisation steps (sched.Dfs: complete when the budget allows,
@@ -260,7 +268,7 @@ def wake_families(run, families, n, reader_relaxed=False, mode="th", oracle="lin
         k = 0
         while True:
             if walker is not None:
-                r = sched.run_schedule(Universe(), [dict(c) for c in setup], [dict(c) for c in calls], dfs=walker, mode=mode)
+                r = sched.run_schedule(UFACTORY[0](), [dict(c) for c in setup], [dict(c) for c in calls], dfs=walker, mode=mode)
                 run.count("systematic_runs", calls_t)
                 if walker.done():
                     run.extra.setdefault("systematic", {}).setdefault(calls_t, []).append({"runs": walker.runs, "complete": walker.complete, "preemption_bounded": walker.conflicts})
@@ -269,7 +277,7 @@ def wake_families(run, families, n, reader_relaxed=False, mode="th", oracle="lin
                 if k >= n:
                     break
                 k += 1
-                r = sched.run_schedule(Universe(), [dict(c) for c in setup], [dict(c) for c in calls], rng=random.Random(rng.random()), mode=mode,
+                r = sched.run_schedule(UFACTORY[0](), [dict(c) for c in setup], [dict(c) for c in calls], rng=random.Random(rng.random()), mode=mode,
                                        sticky=rng.choice([0.0, 0.7, 0.9]))
             run.case(proj, (calls_t, tuple(r["schedule"])), nontrivial=True,
                      sample={"search": "3 threads, two contending on one identifier while a third releases another of the same class", "setup": setup_t, "calls": calls_t,
@@ -285,8 +293,10 @@ def wake_families(run, families, n, reader_relaxed=False, mode="th", oracle="lin
                 run.violation({"kind": "sched", "symptom": classify(calls, r["outcomes"], r["state"], r["status"]), "scenario": "wake:" + calls_t, "mode": mode,
                                "calls": sorted(c["op"] for c in calls)},
                               "[%s] after [%s] under schedule %s: %s" % (calls_t, setup_t, ",".join(map(str, r["schedule"])), problem),
-                              {"setup": setup_t, "calls": calls_t, "schedule": ",".join(map(str, r["schedule"])), "mode": mode})
+                              dict({"setup": setup_t, "calls": calls_t, "schedule": ",".join(map(str, r["schedule"])), "mode": mode},
+                                   **({"universe": fam[2]} if len(fam) > 2 else {})))
                 break
+    UFACTORY[0] = Universe
 
 
 def c07(run):
